@@ -10,15 +10,22 @@ package index
 //@ spec trie_get_found(si *SlimIndex, key string) bool
 //@ spec trie_rangeget_found(si *SlimIndex, key string) bool
 
+// rd_val / rd_ok: what the user's reader answers for (offset, key) (naming clauses of the deterministic, read-only interface method)
+//@ spec rd_val(r interface{}, off int64, key string) string
+//@ spec rd_ok(r interface{}, off int64, key string) bool
 //@ func DataReader.Read
 //@   property DEPA
-//@   assume-dep user-supplied reader (interface contract): total, read-only
+//@   assume-dep user-supplied reader (interface contract): total, read-only, deterministic
+//@   ensures result0 == rd_val(recv, offset, key) && result1 == rd_ok(recv, offset, key)
 
 //@ func (*SlimIndex).Get
 //@   property C12
 //@   opt kinds=post,frame
 //@   requires si != nil
 //@   ensures getid(&si.SlimTrie, key) == -1 ==> result0 == "" && !result1
+//@   ensures si.SlimTrie.inner.NodeTypeBM != nil && walk(&si.SlimTrie, key, 0, 0) != -1 ==>
+//@       result0 == rd_val(si.DataReader, leafval(&si.SlimTrie, int32(walk(&si.SlimTrie, key, 0, 0))).(int64), key)
+//@       && result1 == rd_ok(si.DataReader, leafval(&si.SlimTrie, int32(walk(&si.SlimTrie, key, 0, 0))).(int64), key)
 
 //@ func (*SlimIndex).RangeGet
 //@   property C12
@@ -27,3 +34,12 @@ package index
 //@   requires si.SlimTrie.inner.NodeTypeBM != nil ==> wf_leaves(&si.SlimTrie) && si.SlimTrie.encoder != nil
 //@   ensures si.SlimTrie.inner.NodeTypeBM == nil ==> result0 == "" && !result1
 //@   ensures !rg_found(&si.SlimTrie, key) ==> result0 == "" && !result1
+// exact map with a key-verifying reader (C12): the reader is asked about the offset stored at the exact-match leaf if there is
+// one, else at the left-neighbour leaf — never about any other offset — and its answer is returned unchanged
+//@   ensures si.SlimTrie.inner.NodeTypeBM != nil && walk(&si.SlimTrie, key, 0, 0) != -1 ==>
+//@       result0 == rd_val(si.DataReader, leafval(&si.SlimTrie, int32(walk(&si.SlimTrie, key, 0, 0))).(int64), key)
+//@       && result1 == rd_ok(si.DataReader, leafval(&si.SlimTrie, int32(walk(&si.SlimTrie, key, 0, 0))).(int64), key)
+//@   ensures si.SlimTrie.inner.NodeTypeBM != nil && walk(&si.SlimTrie, key, 0, 0) == -1 && sid_l(&si.SlimTrie, key) != -1 ==>
+//@       result0 == rd_val(si.DataReader, leafval(&si.SlimTrie, sid_l(&si.SlimTrie, key)).(int64), key)
+//@       && result1 == rd_ok(si.DataReader, leafval(&si.SlimTrie, sid_l(&si.SlimTrie, key)).(int64), key)
+//@   ensures si.SlimTrie.inner.NodeTypeBM != nil && walk(&si.SlimTrie, key, 0, 0) == -1 && sid_l(&si.SlimTrie, key) == -1 ==> result0 == "" && !result1
